@@ -34,6 +34,9 @@ type Case struct {
 	Tuples [][][]*lang.Expr `json:"tuples"` // per program: tuples of argument literals
 	Steps  []Step          `json:"steps"`
 	Opt    bool            `json:"optimizer"`
+	// ReuseArgs: the host builds the argument values of a tuple once and passes the very
+	// same value objects to every evaluation with that tuple (values are immutable)
+	ReuseArgs bool `json:"reuse_args,omitempty"`
 }
 
 func config() lang.Config {
@@ -78,6 +81,19 @@ func check(c Case) (string, info) {
 		generated[i] = true
 		return ""
 	}
+	argCache := map[[2]int][]value.Value{}
+	argsOf := func(i, j int, pc progs.Case) []value.Value {
+		if !c.ReuseArgs {
+			return progs.ImplArgs(pc, obs.RepListMap)
+		}
+		k := [2]int{i, j}
+		if a, ok := argCache[k]; ok {
+			return a
+		}
+		a := progs.ImplArgs(pc, obs.RepListMap)
+		argCache[k] = a
+		return a
+	}
 	type held struct {
 		f, t int
 		v    value.Value
@@ -116,7 +132,7 @@ func check(c Case) (string, info) {
 		case "eval":
 			seen[key]++
 			inf.evals++
-			got := progs.ImplEval(funcs[i], pc)
+			got := progs.Observe(funcs[i].Eval(argsOf(i, j, pc)...))
 			if m := cmp(i, j, got, sn, "evaluate"); m != "" {
 				return m, inf
 			}
@@ -130,14 +146,14 @@ func check(c Case) (string, info) {
 			// evaluate, keep the (possibly lazy) result unconsumed
 			seen[key]++
 			inf.evals++
-			v, err := funcs[i].Eval(progs.ImplArgs(pc, obs.RepListMap)...)
+			v, err := funcs[i].Eval(argsOf(i, j, pc)...)
 			holds = append(holds, held{i, j, v, err})
 			disturbed = true
 		case "partial":
 			// evaluate and consume only k elements of a lazy list result, then drop it
 			seen[key]++
 			inf.evals++
-			v, err := funcs[i].Eval(progs.ImplArgs(pc, obs.RepListMap)...)
+			v, err := funcs[i].Eval(argsOf(i, j, pc)...)
 			if err == nil {
 				if l, ok := v.(*value.List); ok {
 					k := 0
@@ -200,7 +216,7 @@ func TestPropC10(t *testing.T) {
 	maxSteps := 50
 	rapid.Check(t, func(t *rapid.T) {
 		np := rapid.IntRange(1, 3).Draw(t, "programs")
-		c := Case{Opt: rapid.Bool().Draw(t, "optimizer")}
+		c := Case{Opt: rapid.Bool().Draw(t, "optimizer"), ReuseArgs: rapid.Bool().Draw(t, "reuseArgs")}
 		for i := 0; i < np; i++ {
 			g := lang.NewGen(t, cfg)
 			p := g.GenProgram()
@@ -223,7 +239,10 @@ func TestPropC10(t *testing.T) {
 		if msg != "" {
 			evid.Fail(t, prop, "c10", "", c, "%s\nprograms: %q", msg, c.Texts)
 		}
-		key := fmt.Sprint(c.Texts, c.Steps)
+		if c.ReuseArgs {
+			inf.classes = append(inf.classes, "same_argument_objects_reused")
+		}
+		key := fmt.Sprint(c.Texts, c.Steps, c.ReuseArgs)
 		evid.R.Case(inf.nontrivial, key, func() any {
 			return map[string]any{"programs": c.Texts, "steps": len(c.Steps), "first_steps": c.Steps[:min(6, len(c.Steps))], "optimizer": c.Opt}
 		}, inf.classes...)
